@@ -2,7 +2,7 @@
    One history per line:  <id> hist <op> <op> ...      (an op is one token, fields separated by ':')
      new:<bytes>:<bpr>:<pre>:<elems>   app:<i>:<bpr>:<cb>:<elem>   fin:<i>
      ext:<i>:<bpr>:<pre>:<elems>       exts:<i>:<bpr>:<j>          geti:<i>:<k>
-     get:<i>:<idx>   view:<i>:<bytes>  copy:<i>   seti:<i>:<k>:<v>  setr:<i>:<k>:<elem>
+     get:<i>:<idx>   view:<i>:<bytes>  copy:<i>  dcopy:<i> (copy.deepcopy)   seti:<i>:<k>:<v>  setr:<i>:<k>:<elem>
      set:<i>:<idx>:v<z> | set:<i>:<idx>:q<j>      op:<i>:<fn>:<inplace>:<dtchg>
      cat:<j>,<bpr>;<j>,<bpr>...        drop:<i>   opq:<i>:<fn2>:<j>:<inplace>:<dtchg> (sequence operand)
      appbad:<i>[:b] (element with another trailing shape)   shrink:<i>   cat1:<j>,<j>... (axis=1)
@@ -44,6 +44,7 @@ let op_of_string s = match split ':' s with
   | ["get"; i; ix] -> OGetIdx (nat i, index_of_string ix)
   | ["view"; i; by] -> OView (nat i, z_of_string by)
   | ["copy"; i] -> OCopy (nat i)
+  | ["dcopy"; i] -> ODeepCopy (nat i)
   | ["seti"; i; k; v] -> OSetInt (nat i, z_of_string k, z_of_string v)
   | ["setr"; i; k; e] -> OSetIntRows (nat i, z_of_string k, elem_of_string e)
   | ["set"; i; ix; v] ->
